@@ -1009,10 +1009,11 @@ class Engine:
             if i == len(node.values) - 1:
                 return last
             t = self.branch(last, "{}[{}]".format("and" if is_and else "or", src_of(v, self.cur_source(env), 40)))
+            # the VALUE of the deciding operand (`c or a` with a number c yields c itself, not True)
             if is_and and not t:
-                return last if not is_sym(last) else False
+                return False if (is_sym(last) and z3.is_bool(last)) else last
             if not is_and and t:
-                return last if not is_sym(last) else True
+                return True if (is_sym(last) and z3.is_bool(last)) else last
         return last
 
     def cur_source(self, env):
